@@ -307,7 +307,12 @@ func (b *BloomSearchEngine) Stop(ctx context.Context) error {
 		verifEv("stop_ret")
 		return nil
 	case <-ctx.Done():
-		// Timeout occurred
+		// Timeout occurred. Cancel the flush context here rather than relying
+		// on the AfterFunc armed above alone: AfterFunc callbacks run in their
+		// own goroutine (and a Context implementation may run them late), so
+		// without this a queued flush could still begin store work after Stop
+		// has already reported the deadline error. flushCancel is idempotent.
+		b.flushCancel()
 		verifEv("stop_ret", ctx.Err())
 		return fmt.Errorf("shutdown timeout exceeded: %w", ctx.Err())
 	}
